@@ -15,7 +15,8 @@ def job_builder_dataflow(ses, proto, prelude):
     Kb = Const('K', Bytes)
     key = sym_key_value(w, proto, Kb) if p['p'] == 'Local' else w.mk('PasetoAsymmetricPrivateKey', version=PHANTOM, purpose=PHANTOM, key=Kb)
     tag = '%s %s::%s' % (proto, 'PasetoBuilder' if prelude else 'GenericBuilder', meth); n_ok = 0
-    for fk, ak in (('some', akind), ('none', 'none')):
+    combos = [('some', akind), ('none', 'none')] + ([('some', 'none'), ('none', 'some')] if akind == 'some' else [])      # every presence combination: a builder may treat (None, Some) differently from (Some, Some)
+    for fk, ak in combos:
         st = new_state([Not(sb.DUP)] if prelude else []); cell = st.new_cell(sb.value(fk, ak) if prelude else sb.generic_value(fk, ak))
         for s2, r in ex.run(fs[0], [('ref', cell, ()), ('ref', st.new_cell(key), ())], st):
             if isinstance(r, Panic):
